@@ -370,6 +370,23 @@ def evolution_flags(tree, mod_locks):
   return lock_kind, out
 
 
+# Functions without sites whose text still matters to the search target (fingerprinted only).
+EXTRA_FP = [
+    ('pyglove/core/tuning/sample.py', None, 'sample'),
+    ('pyglove/core/tuning/protocols.py', 'Feedback', '__call__'),
+    ('pyglove/core/tuning/protocols.py', 'Feedback', 'add_measurement'),
+    ('pyglove/core/tuning/protocols.py', 'Trial', 'get_reward_for_feedback'),
+    (LB, '_InMemoryBackend', '_create_feedback'),
+    (LB, '_InMemoryResult', '__init__'),
+    (LB, '_InMemoryResult', 'get_latest_trial'),
+    (LB, '_InMemoryResult', 'next_trial_id'),
+    (LB, '_InMemoryFeedback', '__init__'),
+    (LB, '_InMemoryFeedback', 'end_loop'),
+    (LB, '_InMemoryFeedback', 'should_stop_early'),
+    (GEN, 'DNAGenerator', 'setup'),
+]
+
+
 def extract(strict=True):
   """strict: raise TranslatorError on the first unrecognised shape. Non-strict (used by the harness so
   that a broken tie never stops the failing-input search): best-effort table, conservative flags
@@ -387,6 +404,13 @@ def extract(strict=True):
   except TranslatorError as e:
     problems.append(str(e))
     links_ok = False
+  for rel, cls_name, fn_name in EXTRA_FP:
+    try:
+      tree = trees[rel] if rel in trees else common.parse_source(rel)[1]
+      node = common.find_class(tree, cls_name) if cls_name else tree
+      fingerprints[f'{rel}:{cls_name or ""}.{fn_name}'] = fingerprint(common.find_func(node, fn_name))
+    except (TranslatorError, OSError) as e:
+      problems.append(f'{rel} {cls_name}.{fn_name}: {e}')
   by_kind = {s['kind']: s for s in sites}
   g = by_kind.get
   study_lock = None
